@@ -25,22 +25,23 @@ Genuine defects found (all reproduced on the real code; diffs in spec/Delta/*.fi
   C25 epoch-flip:idle-subscription-survives, update-for-untracked-key:after-removal, stale-epoch-data:push
         (no small safe fix; see the final report / known_findings.json)
 
-Mutation testing (FRAMEWORK.md rule 3; scratch worktrees /tmp/keyed-*, baseline = HEAD + d1..d3), `./check` exit:
+Mutation testing (FRAMEWORK.md rule 3; scratch worktrees /tmp/keyed-*, baseline = HEAD + d1..d3: C14 exit 0 for seeds 1..5;
+C25 baseline shows exactly the three known sigs for seeds 1..5, every mutation adds the sig named in its line), `./check` exit:
   C14 m1 first-full rule skipped on the positioned live path (deltaAllowed || true)                     caught (1)
       m2 flagDeltaAllowed set at commit for every delta subscription (no full publication sent yet)     caught (1)
       m3 broker hands over the OLDEST retained publication as prevPub (wrong base, also after filtered) caught (1)
       m4 recovered chain: every delta against the first recovered publication (prevPub not advanced)    caught (1)
       m5 medium keeps the first publication as latestPublication forever (stale local base)            caught (1)
-      m6 JSON escape applied twice to live delta data                                                   see MUT
+      m6 JSON escape applied twice to live delta data                                                   caught (1)
       m6' JSON escape not applied to delta data: the server's own encoder rejects the frame and
           disconnects (DisconnectInappropriateProtocol) - nothing wrong is delivered: drift, exit 2     missed by design
-      m7 recovery-to-live boundary uses the pre-recovery base (= D1 reverted)                           see MUT
-      m8 map recovery: one base shared across keys                                                      see MUT
-  C25 s1 version check `<` instead of `<=` (equal version pushed again)                                 see MUT
-      s2 deltaReady assumed for a key tracked with a version (kept across untrack/track)                see MUT
-      s3 phase 3 of the keyed write does not look the key state up again (push after untrack)           see MUT
-      s4 versionless counter reset on every refresh                                                     see MUT
-      s5 epoch flip does not unsubscribe                                                                see MUT
+      m7 recovery-to-live boundary uses the pre-recovery base (= D1 reverted)                           caught (1)
+      m8 map recovery: one base shared across keys                                                      caught (1)
+  C25 s1 version check `<` instead of `<=` (equal version pushed again)   version-not-increasing        caught (1)
+      s2 deltaReady assumed for a key tracked with a version               delta-base:push               caught (1)
+      s3 phase 3 of the keyed write reuses the phase 1 key state           update-for-untracked-key:after-untrack  caught (1)
+      s4 versionless counter reset on every refresh      stale-after-refresh, not-newest-after-settle   caught (1)
+      s5 epoch flip does not unsubscribe                 epoch-flip:tracking-subscription-survives       caught (1)
 """
 import json
 import os
